@@ -1,8 +1,12 @@
 #!/bin/bash
-# usage: tools/collect_seed.sh <worktree-tag> <seed-id> <demo-pkg-dir>
+# usage: tools/collect_seed.sh <worktree-tag> <seed-id> [demo-pkg-dir]   (the demo is located automatically if no dir is given)
 w=$1; id=$2; pkg=$3
+if [ -z "$pkg" ]; then
+  f=$(find /tmp/wt_$w -name zz_demo_test.go | head -1)
+  pkg=$(dirname ${f#/tmp/wt_$w/}); [ "$pkg" = "" ] && pkg=.
+fi
 d=/verif/seeded/$id; mkdir -p $d
 cp /tmp/wt_${w}_patch.diff $d/patch.diff
 cp /tmp/wt_$w/$pkg/zz_demo_test.go $d/demo_test.go
-echo "{\"property\": \"$w\", \"demo_pkg_dir\": \"$pkg\", \"origin\": \"sub-agent batch 3\"}" > $d/meta.json
+echo "{\"property\": \"$w\", \"demo_pkg_dir\": \"$pkg\", \"origin\": \"sub-agent\"}" > $d/meta.json
 /verif/tools/seed.sh confirm $id 2>&1 | grep -v "no test files" | cut -c1-120
